@@ -5,12 +5,14 @@ from vp import core, mmd, pmap
 NAMES = ["a.txt", "b.txt", "c.txt", "d.txt"]
 FIXED = {"w.html": b"W-html\n", "w.tex": b"W-tex\n", "w.txt": b"W-txt\n", "w.fodt": b"W-fodt\n",
          "t.txt": b"T-plain\n", "sub/s.txt": b"S-start {{t.txt}} S-end\n", "base/x.txt": b"X-in-base\n", "x.txt": b"X-top\n",
-         "m.txt": b"Title: M\nAuthor: me\n\nM-body {{t.txt}}\n", "empty.txt": b"", "onlymeta.txt": b"Title: M\nAuthor: me\n", "tb.txt": b"transclude base: base\n\nTB-body {{x.txt}}\n"}
+         "m.txt": b"Title: M\nAuthor: me\n\nM-body {{t.txt}}\n", "empty.txt": b"", "onlymeta.txt": b"Title: M\nAuthor: me\n", "tb.txt": b"transclude base: base\n\nTB-body {{x.txt}}\n",
+         # files whose names have no extension, with a relative transclude base (top level and in a sub-folder)
+         "tbx": b"transclude base: base\n\nTBX-body {{x.txt}}\n", "sub/tbn": b"transclude base: base\n\nSTB-body {{y.txt}}\n", "sub/base/y.txt": b"Y-in-sub-base\n", "NOEXT": b"N-plain {{t.txt}}\n"}
 FORMATS = [("html", 0), ("latex", 2), ("fodt", 5), ("mmd", 11)]
 WILD = {0: ".html", 12: ".html", 1: ".html", 2: ".tex", 3: ".tex", 4: ".tex", 5: ".fodt", 6: ".fodt"}
 
 def targets(n):
-    return NAMES[:n] + ["missing.txt", "TOC", "w.*", "sub/s.txt", "m.txt", "tb.txt", "ABS:t.txt", "empty.txt"]
+    return NAMES[:n] + ["missing.txt", "TOC", "w.*", "sub/s.txt", "m.txt", "tb.txt", "ABS:t.txt", "empty.txt", "tbx", "sub/tbn", "NOEXT"]
 
 def file_body(i, marks, root):
     s = b"F%d-start\n\n" % i
@@ -139,7 +141,7 @@ def cli_leg(rep, tier):
     def one(gi):
         g = graphs[gi]; d = os.path.join(base, "g%d" % gi); os.makedirs(os.path.join(d, "sub")); os.makedirs(os.path.join(d, "base"))
         files = {}
-        for k, v in FIXED.items(): open(os.path.join(d, k), "wb").write(v); files[os.path.join(d, k)] = v
+        for k, v in FIXED.items(): os.makedirs(os.path.dirname(os.path.join(d, k)), exist_ok=True); open(os.path.join(d, k), "wb").write(v); files[os.path.join(d, k)] = v
         for i, marks in enumerate(g):
             body = file_body(i, marks, d); open(os.path.join(d, NAMES[i]), "wb").write(body); files[os.path.join(d, NAMES[i])] = body
         top = os.path.join(d, "a.txt"); out = []
